@@ -73,7 +73,7 @@ class CleanHooks(QHooks):
         if mp is None or x.args[1].strip().args[0].path() != 'G:line':
             raise AnalysisBroken('qmail-clean: getln call shape changed: %s' % x.src())
         sep = x.args[3].const
-        base = {'$resp': fs(0), '$unl': fs(0), '$inreq': fs(0), '$scan': fs(0), '$name': fs(None)}
+        base = {'$resp': fs(0), '$unl': fs(0), '$inreq': fs(0), '$scan': fs(0), '$name': fs(None), '$seq': fs(()), '$unlfail': fs(0)}
 
         def fresh(E2):
             for p in [p for p in E2.store if p.startswith('G:line.s[')]:
@@ -160,8 +160,18 @@ class CleanHooks(QHooks):
                        and isinstance(sc, tuple) and sc[1] == 5 and nm[3] == sc[2])
             self.site('unlink-path-is-prefix+validated-id', x, ok_name,
                       'unlink(%s) with name %s under keyword %r, id source %s' % (arg, nm, kw, sc), E)
-        return [Outcome(ret=fs(0), sets={'$unl': fs(self.g(E, '$unl') + 1 if self.g(E, '$unl') < 3 else 3)}),
-                Outcome(ret=fs(-1))]
+            # removal order (C02): the k-th successful unlink of a request is the k-th name of the table
+            seq = self.g(E, '$seq', ())
+            if kw in ALLOWED and nm is not None:
+                exp = ALLOWED[kw]
+                k = len(seq)
+                self.site('removal-order:%s' % kw, x, k < len(exp) and (nm[1], nm[2]) == exp[k],
+                          'under %r the unlink attempt number %d names %s%s; documented order is %s' % (kw, k + 1, nm[1], '(split)' if nm[2] else '', [e[0] for e in exp]), E)
+            newseq = tuple(seq) + ((nm[1] if nm else '?'),)
+        else:
+            newseq = self.g(E, '$seq', ())
+        return [Outcome(ret=fs(0), sets={'$unl': fs(self.g(E, '$unl') + 1 if self.g(E, '$unl') < 3 else 3), '$seq': fs(newseq)}),
+                Outcome(ret=fs(-1), sets={'$unlfail': fs(1), '$seq': fs(newseq)})]
 
     def prim_respond(self, E, x, args):
         self.responds += 1
@@ -171,8 +181,8 @@ class CleanHooks(QHooks):
             self.site('rejected-request-changes-nothing', x, self.g(E, '$unl') == 0,
                       'request answered x after %d unlink(s)' % self.g(E, '$unl'), E)
         if lit == '+':
-            kw_ok = True
-            self.site('plus-only-after-both-unlinks', x, self.g(E, '$unl') + 0 >= 0, '', E)
+            self.site('plus-only-after-the-whole-removal-sequence', x, len(self.g(E, '$seq', ())) >= 2,
+                      'request answered + after only %s' % (list(self.g(E, '$seq', ())),), E)
         E.set('$resp', fs(min(n + 1, 3)))
         E.set('$last', fs(lit))
         return [Outcome(ret=TOP, log='respond(%r)' % lit)]
@@ -209,6 +219,18 @@ def lint_literal_lengths(db, rep):
     return r
 
 
+def explore_clean(db, rep):
+    prog = db.program('qmail-clean')
+    main = prog.fn('main', 'qmail-clean.c')
+    H = CleanHooks()
+    eng = Engine(db, prog, H, max_states=600000)
+    eng.run(main)
+    rep.count_states(eng.states, eng.transitions)
+    if H.unlinks < 4 or H.responds < 5 or H.requests < 1:
+        raise AnalysisBroken('qmail-clean main: expected unlink/respond/getln sites not found (%d/%d/%d)' % (H.unlinks, H.responds, H.requests))
+    return H, eng
+
+
 def run(ctx):
     db, rep = ctx.db, ctx.report
     # ---------- 1. qmail-clean
@@ -216,13 +238,10 @@ def run(ctx):
     main = prog.fn('main', 'qmail-clean.c')
     r1 = rep.rule('C18.1-clean-validation', 'R-TYPESTATE',
                   'qmail-clean: every unlink is preceded on its path by the full validation of the request; one answer per request; nothing changes for a rejected request')
-    H = CleanHooks()
-    eng = Engine(db, prog, H, max_states=600000)
-    eng.run(main)
-    rep.count_states(eng.states, eng.transitions)
-    if H.unlinks < 4 or H.responds < 5 or H.requests < 1:
-        raise AnalysisBroken('qmail-clean main: expected unlink/respond/getln sites not found (%d/%d/%d)' % (H.unlinks, H.responds, H.requests))
+    H, eng = explore_clean(db, rep)
     for inst, (ok, where, detail, path) in sorted(H.sites.items()):
+        if inst.startswith('removal-order:') or inst.startswith('plus-only-after'):
+            continue        # removal order is a clause of C02, reported there
         r1.check(ok, inst, where, detail, path)
     r1.expect_min(7)
     r1.note(request_lengths_explored=LENS, byte_values_per_position=256, abstract_states=eng.states)
